@@ -128,6 +128,28 @@ Definition empty_fw : fw := mkFw [] [] init_rs [] 0 [] [] 0.
 Definition decode_fl_scn (l : list Z) : fl_scn :=
   fold_left decode_fl_tuple (chunk8 l) (mkFlScn 0 1 empty_fw [] []).
 
+(** * well-formed initial worlds: a decidable condition (what the scenario decoder builds from generated scenarios);
+    the theorems of Proofs/FloorReach.v hold for every scenario that passes it *)
+Definition is_none {X} (o : option X) : bool := match o with None => true | Some _ => false end.
+
+Definition pristine (x : dev) : bool :=
+  is_none (d_part x) && is_none (d_out x) && is_none (d_inprog x) && is_none (d_reserved x) && is_none (d_last_use x) &&
+  negb (d_shut x) && negb (is_none (d_last_restore x)) &&
+  (match d_buf x with [] => true | _ => false end) && (d_level x =? 0) &&
+  (match d_vhist x with [] => true | _ => false end) && (d_value x =? 0) && (d_cost_produced x =? 0) && (d_value_received x =? 0) &&
+  (match d_batch_size x with None => true | Some n => 1 <=? n end) &&
+  (match d_capacity x with None => true | Some c => 0 <=? c end).
+
+Fixpoint nodupb (l : list Z) : bool :=
+  match l with [] => true | x :: l' => negb (existsb (Z.eqb x) l') && nodupb l' end.
+
+Definition rm_fresh (s : rs) : bool :=
+  (match r_res s with [] => true | _ => false end) && (match r_slots s with [] => true | _ => false end) &&
+  forallb (fun e => (fst (snd e) =? 0) && (0 <=? snd (snd e))) (r_pools s).
+
+Definition wf_worldb (w : fw) : bool :=
+  forallb (fun e => pristine (snd e)) (f_devs w) && nodupb (map fst (f_devs w)) && rm_fresh (f_rm w).
+
 (** System._initialize_assets after ResourceManager.initialize: every asset in creation order *)
 Definition init_dev (fuel : nat) (nw : Z) (w : fw) (d : Z) : fw :=
   let x := getd w d in
@@ -270,4 +292,4 @@ Fixpoint run_fxops (sc : fl_scn) (s : fw * env fact) (xs : list fxop) (acc : lis
 
 Definition run_fam_floor (input : list Z) : list Z :=
   let sc := decode_fl_scn input in
-  concat (run_fxops sc (fq_world sc, init_env) (fq_ext sc) []).
+  [-778; bZ (wf_worldb (fq_world sc))] ++ concat (run_fxops sc (fq_world sc, init_env) (fq_ext sc) []).
